@@ -117,7 +117,10 @@ func famOf(name string) byte {
 }
 
 func runFrame(t *rapid.T, engine string) {
-	sim, err := simkv.New(simkv.Options{Engine: engine})
+	// both data layouts: collection keys with a version suffix (wait_compact) and plain ones
+	// (local_deletion, the production default)
+	policy := rapid.SampledFrom([]string{"wait_compact", "local_deletion"}).Draw(t, "policy")
+	sim, err := simkv.New(simkv.Options{Engine: engine, ExpPolicy: policy})
 	if err != nil {
 		t.Fatalf("HARNESS: %v", err)
 	}
@@ -125,8 +128,22 @@ func runFrame(t *rapid.T, engine string) {
 	perm := rapid.Permutation(fullNames).Draw(t, "names")
 	a, b := perm[0], perm[1]
 	by := perm[2:4]
-	mode := rapid.SampledFrom([]string{"other_key", "other_key", "other_type", "table_delete"}).Draw(t, "mode")
+	mode := rapid.SampledFrom([]string{"other_key", "other_key", "other_type", "table_delete", "other_key", "other_key", "other_type", "table_delete", "big_collection"}).Draw(t, "mode")
 	watched := append([]string{b}, by...)
+	if mode == "big_collection" {
+		// collections above 5000 elements are removed through engine range deletes built from
+		// encoded bounds (RangeDeleteNum): every other name is watched, and half of the time the
+		// big collection is the name most other names of the pool are built around
+		if rapid.Bool().Draw(t, "bigcentral") {
+			for i, n := range perm {
+				if n == "t:k" {
+					perm[0], perm[i] = perm[i], perm[0]
+				}
+			}
+			a = perm[0]
+		}
+		watched = append([]string(nil), perm[1:]...)
+	}
 	for i, w := range watched {
 		populate(sim, w, fmt.Sprint(i))
 	}
@@ -170,6 +187,53 @@ func runFrame(t *rapid.T, engine string) {
 			}
 			delete(snap, w)
 		}
+	} else if mode == "big_collection" {
+		fam := rapid.SampledFrom([]string{"list", "hash", "set", "zset"}).Draw(t, "bigfam")
+		const total = 5004
+		const parts = 12
+		for part := 0; part < parts; part++ {
+			var c []string
+			switch fam {
+			case "list":
+				c = []string{"rpush", a}
+			case "hash":
+				c = []string{"hmset", a}
+			case "set":
+				c = []string{"sadd", a}
+			default:
+				c = []string{"zadd", a}
+			}
+			for i := part * total / parts; i < (part+1)*total/parts; i++ {
+				switch fam {
+				case "hash":
+					c = append(c, fmt.Sprintf("f%05d", i), "v")
+				case "zset":
+					c = append(c, fmt.Sprint(i), fmt.Sprintf("m%05d", i))
+				default:
+					c = append(c, fmt.Sprintf("e%05d", i))
+				}
+			}
+			if r := sim.Do(gen.WithNS(ns, c)...).One(); r.IsErr() {
+				t.Fatalf("HARNESS: building the big %s failed: %s", fam, r)
+			}
+		}
+		trace = append(trace, fmt.Sprintf("%s %q filled with %d elements", fam, a, total))
+		var cands [][]string
+		switch fam {
+		case "list":
+			cands = [][]string{{"ltrim", a, "5001", "-1"}, {"ltrim", a, "0", "1"}, {"ltrim", a, "5002", "5002"}, {"lclear", a}}
+		case "hash":
+			cands = [][]string{{"hclear", a}, {"hmclear", a}}
+		case "set":
+			cands = [][]string{{"sclear", a}, {"smclear", a}}
+		default:
+			cands = [][]string{{"zclear", a}, {"zremrangebyrank", a, "0", "5001"}, {"zremrangebyscore", a, "-inf", "+inf"}, {"zremrangebyscore", a, "1", "5002"}, {"zremrangebylex", a, "-", "+"}, {"zmclear", a}}
+		}
+		for j := rapid.IntRange(1, 2).Draw(t, "nbigops"); j > 0; j-- {
+			c := cands[rapid.IntRange(0, len(cands)-1).Draw(t, "bigop")]
+			r := sim.Do(gen.WithNS(ns, c)...)
+			trace = append(trace, gen.Quote(c)+" -> "+r.String())
+		}
 	} else {
 		n := rapid.IntRange(1, 20).Draw(t, "nops")
 		for i := 0; i < n; i++ {
@@ -200,8 +264,8 @@ func runFrame(t *rapid.T, engine string) {
 		}
 	}
 	rc := rec(recFrame, "frame_"+engine, ruleFrame)
-	canon := fmt.Sprintf("%s|%q|%q|%q|%c|%s", mode, a, b, by, skip, strings.Join(trace, "\x1e"))
-	rc.Record(stats.HashString(canon), odd(perm[0], b) || mode == "other_type", []string{"mode_" + mode}, func() interface{} {
+	canon := fmt.Sprintf("%s|%s|%q|%q|%q|%c|%s", mode, policy, a, b, by, skip, strings.Join(trace, "\x1e"))
+	rc.Record(stats.HashString(canon), odd(perm[0], b) || mode == "other_type" || mode == "big_collection", []string{"mode_" + mode, "policy_" + policy}, func() interface{} {
 		tr := trace
 		if len(tr) > 15 {
 			tr = tr[:15]
